@@ -81,6 +81,22 @@ MUTANTS = [
     m("C05-wrapper-mutates", "C05", "declare-annotation@WrapMeta.__call__", ANN, "new_obj.annotations = obj.annotations | {self}", "obj.annotations.add(self)\n        new_obj.annotations = obj.annotations"),
     m("C05-merge-order", "C05", "annot-merge@LinearOperator.__init__", BASE, "        self.annotations = cola.annotations.get_annotations(self)\n        # TODO: reform matrices with the new annotations?\n        self.annotations.update(annotations)",
       "        self.annotations = set(annotations)\n        self.annotations = cola.annotations.get_annotations(self)"),
+    # ---------------------------------------------------------------- C06
+    m("C06-product-not-reversed", "C06", "inverse-rule@inv(Product,Algorithm)", INV, "output = reversed([inv(M, alg) for M in A.Ms])", "output = [inv(M, alg) for M in A.Ms]"),
+    m("C06-kron-reversed", "C06", "inverse-rule@inv(Kronecker,Algorithm)", INV, "return Kronecker(*[inv(M, alg) for M in A.Ms])", "return Kronecker(*reversed([inv(M, alg) for M in A.Ms]))"),
+    m("C06-blockdiag-multiplicities", "C06", "inverse-rule@inv(BlockDiag,Algorithm)", INV, "return BlockDiag(*[inv(M, alg) for M in A.Ms], multiplicities=A.multiplicities)", "return BlockDiag(*[inv(M, alg) for M in A.Ms])"),
+    m("C06-cholesky-transpose", "C06", "inverse-rule@inv(LinearOperator,Cholesky)", INV, "return inv(L.H) @ inv(L)", "return inv(L.T) @ inv(L)"),
+    m("C06-lu-order", "C06", "inverse-rule@inv(LinearOperator,LU)", INV, "return inv(U) @ inv(L) @ inv(P)", "return inv(P) @ inv(L) @ inv(U)"),
+    m("C06-unitary-transpose", "C06", "inverse-rule@inv(LinearOperator,Algorithm)[cond]", INV, "return Unitary(A.H)", "return Unitary(A.T)"),
+    m("C06-scalar-not-reciprocal", "C06", "inverse-rule@inv(ScalarMul,Algorithm)", INV, "return ScalarMul(1 / A.c, shape=A.shape, dtype=A.dtype, device=A.c.device)", "return ScalarMul(A.c, shape=A.shape, dtype=A.dtype, device=A.c.device)"),
+    m("C06-permutation-no-argsort", "C06", "inverse-rule@inv(Permutation,Algorithm)", INV, "def inv(A: Permutation, alg: Algorithm):\n    return Permutation(A.xnp.argsort(A.perm), A.dtype)", "def inv(A: Permutation, alg: Algorithm):\n    return Permutation(A.perm, A.dtype)"),
+    m("C06-alg-dropped", "C06", "alg-forwarded@inv(Kronecker,Algorithm)", INV, "return Kronecker(*[inv(M, alg) for M in A.Ms])", "return Kronecker(*[inv(M) for M in A.Ms])"),
+    m("C06-solve-alg", "C06", "alg-forwarded@solve", INV, "return inv(A, alg) @ b", "return inv(A) @ b"),
+    m("C06-auto-cg-nonpsd", "C06", "auto-rule@inv(LinearOperator,Auto):guard-implication", INV, "        case (False, False):\n            alg = GMRES(**alg.__dict__)", "        case (False, False):\n            alg = CG(**alg.__dict__)"),
+    m("C06-auto-hole", "C06", "auto-rule@inv(LinearOperator,Auto):exhaustive", INV, "        case (False, True):\n            alg = LU()\n", ""),
+    m("C06-lazy-args", "C06", "lazy-inverse@IterativeOperatorWInfo._matmat", "cola/linalg/algorithm_base.py", "Y, self.info = self.alg(self.A, X)", "Y, self.info = self.alg(X, self.A)"),
+    m("C06-lstsq-shape", "C06", "inverse-rule@LSTSQSolve.__init__:shape", PINV, "super().__init__(A.dtype, (A.shape[-1], A.shape[-2]))", "super().__init__(A.dtype, (A.shape[-2], A.shape[-1]))"),
+    m("C06-pinv-diag", "C06", "inverse-rule@pinv(Diagonal,Algorithm)", PINV, "def pinv(A: Diagonal, alg: Algorithm):\n    return Diagonal(1. / A.diag)", "def pinv(A: Diagonal, alg: Algorithm):\n    return Diagonal(A.diag)"),
     # ---------------------------------------------------------------- C17
     m("C17-drop-set-state", "C17", "rng-bracket@np_fns.randn", NP, "    z = np.random.randn(*shape).astype(dtype)\n    np.random.set_state(old_state)\n", "    z = np.random.randn(*shape).astype(dtype)\n"),
     m("C17-early-return", "C17", "rng-bracket@np_fns.randn", NP, "    z = np.random.randn(*shape).astype(dtype)\n", "    z = np.random.randn(*shape).astype(dtype)\n    if dtype is None:\n        return z\n"),
